@@ -254,7 +254,7 @@ func c15Fixed(c *Ctx, i int, r *gen.R) {
 }
 
 func c15Random(c *Ctx, i int, r *gen.R) {
-	spec := r.Table(gen.TableOpts{MaxCols: 4, MaxRows: 5, ZeroHeaderOK: true, MinCols: 0, Noise: gen.NoiseSkipable | gen.NoiseAlign, NoScale: true,
+	spec := r.Table(gen.TableOpts{MaxCols: 4, MaxRows: 5, ZeroHeaderOK: true, MinCols: 0, Noise: gen.NoiseSkipable | gen.NoiseAlign | gen.NoiseCallbacks, NoScale: true,
 		Item: func(r *gen.R) gen.ItemSpec { return r.TextItem(c10Fam, 4) }})
 	c15Inject(c, &spec, r.Chance(1, 4), true)
 }
